@@ -1080,7 +1080,15 @@ func (s *SystemAnalysisServiceImpl) extractCouplingResult(graph *analyzer.Depend
 		var refactoringCandidates []string
 
 		if graph.ModuleMetrics != nil {
-			for moduleName, moduleMetrics := range graph.ModuleMetrics {
+			// Add in module name order: float sums depend on the order of the terms
+			moduleNames := make([]string, 0, len(graph.ModuleMetrics))
+			for moduleName := range graph.ModuleMetrics {
+				moduleNames = append(moduleNames, moduleName)
+			}
+			sort.Strings(moduleNames)
+
+			for _, moduleName := range moduleNames {
+				moduleMetrics := graph.ModuleMetrics[moduleName]
 				totalFanIn += float64(moduleMetrics.AfferentCoupling)
 				totalFanOut += float64(moduleMetrics.EfferentCoupling)
 				totalInstability += moduleMetrics.Instability
